@@ -731,7 +731,10 @@ def _is_restore(f: Func, val: ast.AST) -> bool:
         srcs = []
         for n in own_nodes(f.node):
             if isinstance(n, ast.Assign) and any(isinstance(t, ast.Name) and t.id == name for t in n.targets):
-                srcs.append(n.value)
+                empty = (isinstance(n.value, ast.List) and not n.value.elts) or (
+                    isinstance(n.value, ast.Call) and U(n.value.func) == "list" and not n.value.args and not n.value.keywords)
+                if not empty:          # the empty initial list holds nothing yet
+                    srcs.append(n.value)
             if isinstance(n, ast.Call) and isinstance(n.func, ast.Attribute) and n.func.attr == "append" and U(n.func.value) == name:
                 srcs.extend(n.args)
         return bool(srcs) and all(_mentions_bscount(s) for s in srcs)
